@@ -8,6 +8,7 @@ import (
 	"math"
 	"math/rand"
 
+	"github.com/unixpickle/model3d/model2d"
 	"github.com/unixpickle/model3d/model3d"
 )
 
@@ -295,6 +296,180 @@ func tfRun(id int, chain []string, rng *rand.Rand, nprobe int) (rec tfRec) {
 	return rec
 }
 
+// ---------------------------------------------------------------- model2d (z is padded with 0)
+
+func tfAtom2(name string) model2d.Transform {
+	mat := func(a, b, c, d float64) *model2d.Matrix2 {
+		// rows (a b; c d), stored row by row (as NewMatrix2Columns / NewMatrix2Rotation do)
+		return &model2d.Matrix2{a, b, c, d}
+	}
+	switch name {
+	case "T1":
+		return &model2d.Translate{Offset: model2d.XY(1, -2)}
+	case "T2":
+		return &model2d.Translate{Offset: model2d.XY(-0.5, 0)}
+	case "S2":
+		return &model2d.Scale{Scale: 2}
+	case "Sh":
+		return &model2d.Scale{Scale: 0.5}
+	case "S3":
+		return &model2d.Scale{Scale: 3}
+	case "V":
+		return &model2d.VecScale{Scale: model2d.XY(2, -1)}
+	case "Ms":
+		return &model2d.Matrix2Transform{Matrix: mat(1, 1, 0, 1)}
+	case "Md":
+		return &model2d.Matrix2Transform{Matrix: mat(2, 1, 0, 1)}
+	case "Mu":
+		return &model2d.Matrix2Transform{Matrix: mat(2, 1, 1, 1)}
+	case "Rz":
+		return model2d.Rotation(math.Pi / 2)
+	}
+	return nil // atom has no 2-D counterpart
+}
+
+func tfPt2(p []int) model2d.Coord { return model2d.XY(float64(p[0])/tfD, float64(p[1])/tfD) }
+
+func tfInts2(c model2d.Coord, scale float64) ([]int, bool) {
+	v, ok := tfInts(model3d.XYZ(c.X, c.Y, 0), scale)
+	return v, ok
+}
+
+func tfRun2(id int, chain []string, rng *rand.Rand, nprobe int) (rec tfRec, ok bool) {
+	json.Unmarshal([]byte(`{"pts":[],"dists":[],"solid":[],"sdf":[],"meta":[],"rays":[],"balls":[]}`), &rec)
+	rec.ID = id
+	rec.Site = "model2d"
+	rec.Chain = chain
+	rec.Box.Lo = []int{-8, 0, -8}
+	rec.Box.Hi = []int{16, 8, 8}
+	rec.BLo, rec.BHi = []int{0, 0, -8}, []int{0, 0, 8}
+	rec.Dist = true
+	var parts model2d.JoinedTransform
+	for _, a := range chain {
+		at := tfAtom2(a)
+		if at == nil {
+			return rec, false
+		}
+		if _, isd := at.(model2d.DistTransform); !isd {
+			rec.Dist = false
+		}
+		parts = append(parts, at)
+	}
+	var t model2d.Transform = parts
+	if len(parts) == 1 {
+		t = parts[0]
+	}
+	box := &model2d.Rect{MinVal: tfPt2(rec.Box.Lo), MaxVal: tfPt2(rec.Box.Hi)}
+	rec.Panic = protect(func() {
+		inv := t.Inverse()
+		for x := -16; x <= 24; x += 8 {
+			for y := -8; y <= 16; y += 8 {
+				p := []int{x, y, 0}
+				c := tfPt2(p)
+				ac := t.Apply(c)
+				ap, apx := tfInts2(ac, tfD)
+				rec.Pts = append(rec.Pts, struct {
+					P    []int `json:"p"`
+					AP   []int `json:"ap"`
+					APX  bool  `json:"apx"`
+					Inv  bool  `json:"inv"`
+					Inv2 bool  `json:"inv2"`
+				}{p, ap, apx, inv.Apply(ac).Dist(c) < 1e-9, t.Apply(inv.Apply(c)).Dist(c) < 1e-9})
+			}
+		}
+		bmin, bmax := t.ApplyBounds(box.MinVal, box.MaxVal)
+		rec.BLo = []int{int(math.Floor(bmin.X*tfD + 1e-9)), int(math.Floor(bmin.Y*tfD + 1e-9)), -8}
+		rec.BHi = []int{int(math.Ceil(bmax.X*tfD - 1e-9)), int(math.Ceil(bmax.Y*tfD - 1e-9)), 8}
+		rec.BX = !math.IsNaN(bmin.X+bmin.Y) && !math.IsNaN(bmax.X+bmax.Y)
+		probe := func() []int { return []int{4 + 8*(rng.Intn(7)-3), 4 + 8*(rng.Intn(5)-2), 0} }
+		solid := model2d.TransformSolid(t, box)
+		for i := 0; i < nprobe; i++ {
+			x := probe()
+			rec.Solid = append(rec.Solid, struct {
+				X  []int `json:"x"`
+				In bool  `json:"in"`
+			}{x, solid.Contains(t.Apply(tfPt2(x)))})
+		}
+		dt, isDist := t.(model2d.DistTransform)
+		if !isDist || !rec.Dist {
+			rec.Dist = false
+			return
+		}
+		for i := 0; i < nprobe; i++ {
+			p, q := probe(), probe()
+			d := dt.ApplyDistance(tfPt2(p).Dist(tfPt2(q)))
+			v := d * d * tfD * tfD
+			rec.Dists = append(rec.Dists, struct {
+				P   []int `json:"p"`
+				Q   []int `json:"q"`
+				AD2 int   `json:"ad2"`
+				ADX bool  `json:"adx"`
+			}{p, q, int(math.Round(v)), math.Abs(v-math.Round(v)) < 1e-6})
+		}
+		sdf := model2d.TransformSDF(dt, box)
+		meta := model2d.TransformMetaball(dt, box)
+		for i := 0; i < nprobe; i++ {
+			x := probe()
+			y := t.Apply(tfPt2(x))
+			sv := sdf.SDF(y)
+			v := sv * sv * tfD * tfD
+			rec.SDF = append(rec.SDF, struct {
+				X   []int `json:"x"`
+				S2  int   `json:"s2"`
+				Pos bool  `json:"pos"`
+				SX  bool  `json:"sx"`
+			}{x, int(math.Round(v)), sv > 0, math.Abs(v-math.Round(v)) < 1e-6})
+			rec.Meta = append(rec.Meta, struct {
+				X    []int `json:"x"`
+				Same bool  `json:"same"`
+			}{x, math.Abs(meta.MetaballField(y)-box.MetaballField(tfPt2(x))) < 1e-9})
+		}
+		coll := model2d.TransformCollider(dt, box)
+		for i := 0; i < nprobe; i++ {
+			var q tfRay
+			q.O = probe()
+			q.D = []int{rng.Intn(7) - 3, rng.Intn(7) - 3, 0}
+			if q.D[0] == 0 && q.D[1] == 0 {
+				q.D[rng.Intn(2)] = 2
+			}
+			if i%3 != 0 {
+				k := 1 + rng.Intn(4)
+				target := []int{-4 + 8*rng.Intn(3), 4, 0}
+				for a := 0; a < 2; a++ {
+					q.O[a] = target[a] - k*q.D[a]*4
+					q.D[a] *= 4
+				}
+			}
+			o, d := tfPt2(q.O), tfPt2(q.D)
+			ray := &model2d.Ray{Origin: t.Apply(o), Direction: t.Apply(o.Add(d)).Sub(t.Apply(o))}
+			q.Hits = []tfHit{}
+			q.N = coll.RayCollisions(ray, func(rc model2d.RayCollision) {
+				q.CB++
+				t12 := rc.Scale * 12
+				n, unit := tfInts2(rc.Normal, 1)
+				q.Hits = append(q.Hits, tfHit{T12: int(math.Round(t12)), TX: math.Abs(t12-math.Round(t12)) < 1e-6, N: n,
+					Unit: unit && math.Abs(rc.Normal.Norm()-1) < 1e-9})
+			})
+			q.NN = coll.RayCollisions(ray, nil)
+			if rc, hit := coll.FirstRayCollision(ray); hit {
+				q.First.Hit = true
+				q.First.T12 = int(math.Round(rc.Scale * 12))
+			}
+			rec.Rays = append(rec.Rays, q)
+		}
+		for i := 0; i < nprobe; i++ {
+			c := probe()
+			r8 := 1 + rng.Intn(20)
+			rec.Balls = append(rec.Balls, struct {
+				C   []int `json:"c"`
+				R8  int   `json:"r8"`
+				Hit bool  `json:"hit"`
+			}{c, r8, coll.CircleCollision(t.Apply(tfPt2(c)), dt.ApplyDistance(float64(r8)/tfD))})
+		}
+	})
+	return rec, true
+}
+
 func init() {
 	register("c05-transform", func(a args) {
 		rng := rand.New(rand.NewSource(int64(a.int("seed", 1))))
@@ -311,6 +486,12 @@ func init() {
 			rec := tfRun(id, chain, rng, a.int("probes", 12))
 			out.write(rec)
 			stats["records"]++
+			if rec2, ok := tfRun2(id+1, chain, rng, a.int("probes", 12)); ok {
+				id++
+				out.write(rec2)
+				stats["records"]++
+				stats["model2d"]++
+			}
 			if rec.Dist {
 				stats["dist"]++
 			}
